@@ -10,7 +10,7 @@ Open Scope N_scope.
 Theorem supported_converts s name : supported s = true -> exists o, j2oas name s = Ok o.
 Proof.
   intros H.
-  pose proof (supported_convertible_n true _ s (le_n _) H) as Hc.
+  pose proof (supported_convertible_n true true _ s (le_n _) H) as Hc.
   rewrite <- (j2oas_ok_convertible_n _ s (le_n _) name) in Hc.
   destruct (j2oas name s); [eauto|discriminate].
 Qed.
@@ -24,11 +24,15 @@ Proof.
   destruct (supported_converts s name E) as [o Ho]. congruence.
 Qed.
 
-Theorem supported_nonull_supported s : supported_nonull s = true -> supported s = true.
-Proof. exact (supported_nonull_supported_n _ s (le_n _)). Qed.
+Theorem supported_faithful_mono b1 b2 s :
+  supported_faithful s = true -> supported_with b1 b2 s = true.
+Proof. exact (supported_faithful_mono_n b1 b2 _ s (le_n _)). Qed.
+
+Theorem supported_faithful_supported s : supported_faithful s = true -> supported s = true.
+Proof. exact (supported_faithful_mono true true s). Qed.
 
 Theorem meaning_preserved env pat_ok fmt_ok s name o :
-  supported_nonull s = true -> j2oas name s = Ok o ->
+  supported_faithful s = true -> j2oas name s = Ok o ->
   forall j, valid_oas env pat_ok fmt_ok o j = valid_js env pat_ok fmt_ok s j.
 Proof. intros Hs Hj j. exact (preserved_all env pat_ok fmt_ok _ s (le_n _) name o Hs Hj j). Qed.
 
@@ -41,7 +45,7 @@ Section Keywords.
   Notation VO := (valid_oas env pat_ok fmt_ok).
 
   Variables (so : sobj schema) (name : option str) (o : oschema).
-  Hypothesis Hsup : supported_nonull (SObj so) = true.
+  Hypothesis Hsup : supported_faithful (SObj so) = true.
   Hypothesis Hconv : j2oas name (SObj so) = Ok o.
   Hypothesis Hnoref : so_reference so = None.
 
@@ -180,13 +184,13 @@ Section Documents.
 
   (* the published components are the conversions of the definitions *)
   Definition comps_of_defs (defs : list (str * schema)) (comps : list (str * oschema)) : Prop :=
-    Forall2 (fun d c => fst d = fst c /\ supported_nonull (snd d) = true
+    Forall2 (fun d c => fst d = fst c /\ supported_faithful (snd d) = true
                         /\ j2oas None (snd d) = Ok (snd c)) defs comps.
 
   Lemma lookup_comps defs comps r :
     comps_of_defs defs comps ->
     match lookup r defs, lookup r comps with
-    | Some s, Some o => supported_nonull s = true /\ j2oas None s = Ok o
+    | Some s, Some o => supported_faithful s = true /\ j2oas None s = Ok o
     | None, None => True
     | _, _ => False
     end.
@@ -213,7 +217,7 @@ Section Documents.
      references alike *)
   Theorem document_meaning_preserved defs comps s name o fuel :
     comps_of_defs defs comps ->
-    supported_nonull s = true -> j2oas name s = Ok o ->
+    supported_faithful s = true -> j2oas name s = Ok o ->
     forall j, valid_oas (env_oas pat_ok fmt_ok fuel comps) pat_ok fmt_ok o j
               = valid_js (env_js pat_ok fmt_ok fuel defs) pat_ok fmt_ok s j.
   Proof.
@@ -236,6 +240,24 @@ Proof.
   congruence.
 Qed.
 
+(* even with the null type excluded, an integer schema whose bound is not an
+   integer is altered: {type: integer, minimum: 0.5} is published with
+   minimum 0 and then accepts 0 (known finding K6) *)
+Definition k6_witness : schema :=
+  SObj (mkSObj None (Some (Single TInteger)) None None None None
+               (Some (mkNumVal None None None (Some (Q 1 2)) None)) None None None None []).
+
+Theorem fractional_integer_bound_refuted :
+  ~ (forall env pat_ok fmt_ok s name o,
+        supported_with false true s = true -> j2oas name s = Ok o ->
+        forall j, valid_oas env pat_ok fmt_ok o j = valid_js env pat_ok fmt_ok s j).
+Proof.
+  intros H.
+  specialize (H (fun _ _ => false) (fun _ _ => true) (fun _ _ => true) k6_witness None _
+                eq_refl eq_refl (JNum (NInt 0))).
+  vm_compute in H. discriminate.
+Qed.
+
 Theorem parameter_annotations_full_refuted :
   ~ (forall so d k,
         supported (SObj so) = true ->
@@ -245,3 +267,133 @@ Proof.
   intros H. destruct k5_refutes as (so & d & k & Hs & Hj & Hd).
   exact (Hd (H so d k Hs Hj)).
 Qed.
+
+(* ---------- annotations of every node of the schema tree ---------- *)
+
+Lemma flat_map'_F2 {A B C D} (N : C -> D) (R : A -> B -> Prop) (f : A -> list C) (g : B -> list C) l l' :
+  Forall2 R l l' ->
+  (forall a b, In a l -> R a b -> map N (f a) = map N (g b)) ->
+  map N (flat_map' f l) = map N (flat_map' g l').
+Proof.
+  induction 1 as [|a b l l' Hab _ IH]; intros H; cbn; [reflexivity|].
+  rewrite !map_app, (H a b (or_introl eq_refl) Hab), IH; [reflexivity|].
+  intros; apply H; [right|]; assumption.
+Qed.
+
+Definition annots_at (s : schema) : Prop :=
+  forall name o, supported s = true -> j2oas name s = Ok o ->
+                 map annot_norm (annots_oas o) = map annot_norm (annots_js name s).
+
+Lemma leaf_kind_integer fmt num en (k : okind oschema) :
+  j2oas_integer fmt num en = Ok k -> exists it, k = KType (OTInteger it).
+Proof.
+  unfold j2oas_integer. intros H. inv_bind_as H b Hb. destruct b as [[mo [mn emn]] [mx emx]].
+  inv_bind_as H e He. inversion H; eauto.
+Qed.
+Lemma leaf_kind_number fmt num en (k : okind oschema) :
+  j2oas_number fmt num en = Ok k -> exists it, k = KType (OTNumber it).
+Proof.
+  unfold j2oas_number. intros H. inv_bind_as H b Hb. destruct b as [[mo [mn emn]] [mx emx]].
+  inv_bind_as H e He. inversion H; eauto.
+Qed.
+Lemma leaf_kind_string fmt sv en (k : okind oschema) :
+  j2oas_string fmt sv en = Ok k -> exists it, k = KType (OTString it).
+Proof.
+  unfold j2oas_string. intros H.
+  destruct (match sv with
+            | Some sv0 => (sv_max_length sv0, sv_min_length sv0, sv_pattern sv0)
+            | None => (None, None, None)
+            end) as [[mx mn] pt].
+  inv_bind_as H e He. inversion H; eauto.
+Qed.
+
+Theorem annotations_kept_everywhere_n : forall n s, (schema_size s <= n)%nat -> annots_at s.
+Proof.
+  induction n as [|n IH]; intros s Hsz.
+  { destruct s; cbn in Hsz; lia. }
+  intros name o Hsup Hj.
+  destruct s as [b|so].
+  { cbn in Hsup. subst b. cbn in Hj. inversion Hj; subst o. reflexivity. }
+  destruct (so_reference so) as [r|] eqn:Eref.
+  { destruct so; cbn in Eref; subst. cbn in Hj. inversion Hj; subst o. reflexivity. }
+  assert (Hshape : exists d k, o = OItem d k).
+  { destruct so; cbn in Eref; subst. cbn in Hj.
+    inv_bind_as Hj ty Hty. inv_bind_as Hj kind Hk. inversion Hj; eauto. }
+  destruct Hshape as (d & k & ->).
+  pose proof (annotations_kept_top true true name so d k Hsup Hj) as Htop.
+  destruct so as [md ity fmt en cst subs num sv arr obj ref ext].
+  cbn in Eref; subst ref.
+  cbn [j2oas so_reference so_instance_type so_subschemas so_enum_values so_object so_array
+       so_format so_number so_string] in Hj.
+  unfold supported in Hsup.
+  cbn [supported_with so_reference so_instance_type so_subschemas so_enum_values so_object
+       so_array so_format so_number so_string so_const_value] in Hsup.
+  apply andb_true_iff in Hsup as [_ Hsup].
+  inv_bind_as Hj ty Hty. inv_bind_as Hj kind Hkind. inversion Hj; subst d k; clear Hj.
+  cbn [annots_oas annots_js so_reference so_instance_type so_subschemas so_object so_array map].
+  rewrite Htop. f_equal.
+  cbn [schema_size so_subschemas so_array so_object] in Hsz.
+  destruct ity as [[t|ts]|]; cbn in Hty; inversion Hty; subst ty; clear Hty.
+  - destruct subs as [sb|]; [destruct t; discriminate|].
+    destruct t.
+    + inversion Hkind; reflexivity.
+    + inv_bind_as Hkind e He. inversion Hkind; reflexivity.
+    + (* object *)
+      apply andb_true_iff in Hsup as [_ Hsup].
+      unfold j2oas_object in Hkind. destruct obj as [ov|]; [|inversion Hkind; reflexivity].
+      inv_bind_as Hkind props' Hprops. inv_bind_as Hkind ap' Hap. inversion Hkind; subst kind; clear Hkind.
+      cbn [oo_properties oo_additional_properties].
+      rewrite !andb_true_iff in Hsup. destruct Hsup as [[[_ _] Hsp] Hsa].
+      rewrite !map_app. f_equal.
+      * apply map_res_snd_Forall2 in Hprops. symmetry.
+        eapply flat_map'_F2; [exact Hprops|].
+        intros a b Hin [_ Hab]. symmetry.
+        apply (IH (snd a)); [pose proof (size_plist_In a _ Hin); lia| |exact Hab].
+        rewrite forallb_forall in Hsp. apply Hsp; exact Hin.
+      * unfold j2oas_addl in Hap. destruct (ov_additional_properties ov) as [[c|oa]|] eqn:Eap.
+        -- inversion Hap; reflexivity.
+        -- inv_bind_as Hap oa' Hoa. inversion Hap; subst ap'.
+           apply (IH (SObj oa)); [cbn [size_opt] in Hsz; lia|exact Hsa|exact Hoa].
+        -- inversion Hap; reflexivity.
+    + (* array *)
+      apply andb_true_iff in Hsup as [_ Hsup].
+      unfold j2oas_array in Hkind. destruct arr as [av|]; [|discriminate].
+      inv_bind_as Hkind items' Hitems. inversion Hkind; subst kind; clear Hkind.
+      cbn [oa_items]. apply andb_true_iff in Hsup as [_ Hsup].
+      destruct (av_items av) as [[i|ss]|] eqn:Eit; try discriminate.
+      * inv_bind_as Hitems i' Hi. inversion Hitems; subst items'.
+        apply (IH i); [cbn [size_sov] in Hsz; lia|exact Hsup|exact Hi].
+      * inversion Hitems; reflexivity.
+    + destruct (leaf_kind_number _ _ _ _ Hkind) as [it ->]. reflexivity.
+    + destruct (leaf_kind_string _ _ _ _ Hkind) as [it ->]. reflexivity.
+    + destruct (leaf_kind_integer _ _ _ _ Hkind) as [it ->]. reflexivity.
+  - destruct subs as [sb|]; [|inversion Hkind; reflexivity].
+    rewrite !andb_true_iff in Hsup. destruct Hsup as [[_ _] Hall].
+    unfold j2oas_subschemas in Hkind. unfold subs_all in Hall.
+    destruct sb as [all any one nt i th el].
+    cbn [sb_all_of sb_any_of sb_one_of sb_not] in *.
+    assert (HL : forall l l', (S (size_list schema_size l) <= n)%nat ->
+                              forallb (supported_with true true) l = true ->
+                              map_res (j2oas None) l = Ok l' ->
+                              map annot_norm (flat_map' annots_oas l')
+                              = map annot_norm (flat_map' (annots_js None) l)).
+    { intros l l' Hl Hs Hm. apply map_res_Forall2 in Hm. symmetry.
+      eapply flat_map'_F2; [exact Hm|].
+      intros a b Hin Hab. symmetry.
+      apply (IH a); [pose proof (size_list_In a l Hin); lia| |exact Hab].
+      rewrite forallb_forall in Hs. apply Hs; exact Hin. }
+    destruct all as [l|], any as [l2|], one as [l3|], nt as [c|]; try discriminate.
+    + inv_bind_as Hkind l' Hl. inversion Hkind; subst kind.
+      apply HL; auto. cbn [size_optlist] in Hsz. lia.
+    + inv_bind_as Hkind l' Hl. inversion Hkind; subst kind.
+      apply HL; auto. cbn [size_optlist] in Hsz. lia.
+    + inv_bind_as Hkind l' Hl. inversion Hkind; subst kind.
+      apply HL; auto. cbn [size_optlist] in Hsz. lia.
+    + inv_bind_as Hkind c' Hc. inversion Hkind; subst kind.
+      apply (IH c); [cbn [size_opt] in Hsz; lia|exact Hall|exact Hc].
+Qed.
+
+Theorem annotations_kept_everywhere s name o :
+  supported s = true -> j2oas name s = Ok o ->
+  map annot_norm (annots_oas o) = map annot_norm (annots_js name s).
+Proof. exact (annotations_kept_everywhere_n _ s (le_n _) name o). Qed.
